@@ -61,6 +61,9 @@ class Check(PropertyCheck):
             self.extra_coverage = {"exhaustive_small_scope": True}
             yield from slices.exhaustive_small("queries")
         for _i in range(n):
+            if _i % 20 in (15, 18):
+                yield Scenario(["new", f"mark customfilter {rng.randint(0, 10**6)}"], {"family": "custom_filter", "accepted": 3, "queries": 4})
+                continue
             if _i % 20 == 13:
                 yield Scenario(["new", f"mark raiser {rng.randint(0, 10**6)}"], {"family": "raiser", "accepted": 3, "queries": 4})
                 continue
@@ -162,6 +165,8 @@ class Check(PropertyCheck):
     def oracle(self, impl, scenario, index, line, out, ctx):
         # the reference is recomputed from the instance and the DISPATCH HISTORY (accepted requests since the last
         # reset, taken from the events alone): forced start times, per-machine lists — never from the dispatcher's objects
+        if line.startswith("mark customfilter"):
+            return oracles.custom_filter_episode(int(line.split()[2]))["C05"]
         if line.startswith("mark raiser"):
             return oracles.raiser_episode(int(line.split()[2]))["C05"]
         if line.startswith("inst") or line == "reset" or line == "new":
